@@ -176,3 +176,58 @@ def locale_date_order(lang, locale=None):
     if locale and locale != lang:
         order = info.get("locale_specific", {}).get(locale, {}).get("date_order", order)
     return order
+
+
+UNIT_KEYS = ["decade", "year", "month", "week", "day", "hour", "minute", "second", "ago", "in", "am", "pm"]
+
+
+def combined_info(lang, locale=None):
+    """language data with the locale_specific overlay applied the way the library documents it (lists are
+    concatenated, dicts merged recursively, scalars replaced) — computed here independently from the data files"""
+    info = language_info(lang)
+    over = info.get("locale_specific", {}).get(locale, {}) if locale and locale != lang else {}
+
+    def comb(p, s):
+        out = {}
+        for k, v in p.items():
+            if k in s:
+                if isinstance(v, list):
+                    out[k] = v + s[k]
+                elif isinstance(v, dict):
+                    out[k] = comb(v, s[k])
+                else:
+                    out[k] = s[k]
+            else:
+                out[k] = v
+        for k in s:
+            if k not in p:
+                out[k] = s[k]
+        return out
+    res = comb(info, over)
+    res.pop("locale_specific", None)
+    return res
+
+
+def meanings(info):
+    """lower-cased vocabulary word -> set of meanings it is listed under"""
+    m = {}
+
+    def put(word, meaning):
+        if isinstance(word, str) and word:
+            m.setdefault(word.lower(), set()).add(meaning)
+    for i, k in enumerate(EN_MONTHS):
+        for w in info.get(k, []):
+            put(w, ("month", i + 1))
+    for i, k in enumerate(EN_DAYS):
+        for w in info.get(k, []):
+            put(w, ("weekday", i))
+    for k in UNIT_KEYS:
+        for w in info.get(k, []):
+            put(w, ("word", k))
+    for k in ("skip", "pertain"):
+        for w in info.get(k, []):
+            put(w, ("skip", None))
+    for canon, ws in info.get("relative-type", {}).items():
+        for w in ws:
+            put(w, ("relative", canon))
+    return m
